@@ -242,6 +242,7 @@ def run_property(pid, tier, seed, relock=False, verbose=False):
         safe = ''.join(ch if ch.isalnum() or ch in '._-' else '_' for ch in name)[:150]
         return os.path.join('out', 'replays', pid, safe + '.json')
 
+    extra_search = {}
     for o, r in failed:
         q = fn_of[o.id]
         lv = lock.get(o.id if not P.get('kinds') else pid + ':' + o.id)
@@ -267,9 +268,11 @@ def run_property(pid, tier, seed, relock=False, verbose=False):
                 if w.get('function') == q:
                     wit = w
         if wit is None and (locked or r.verdict == 'sat'):
-            p = native([os.path.join(HERE, 'vk', 'concrete.py'), 'search', str(seed + 1), q], env_extra={'VK_BUDGET': '3000'})
-            out = last_json(p.stdout) or {}
-            wit = (out.get(q) or {}).get('witness')
+            if q not in extra_search:        # one deeper search per function, not one per failed obligation
+                p = native([os.path.join(HERE, 'vk', 'concrete.py'), 'search', str(seed + 1), q], env_extra={'VK_BUDGET': '3000'})
+                out = last_json(p.stdout) or {}
+                extra_search[q] = (out.get(q) or {}).get('witness')
+            wit = extra_search[q]
         rec = {'property': pid, 'obligation': o.id, 'function': q, 'text': o.meta['text'], 'line': o.meta['line'], 'verdict': r.verdict,
                'backend': r.backend, 'solver_reason': r.reason, 'solver_model': r.model, 'locked': locked, 'witness': wit}
         if wit is not None or locked:
